@@ -1,22 +1,35 @@
-(* Static tie for C12 / C13: the assignments in bexpr.go, evaluate.go and filter.go whose target is a field, a dereference
-   or an element (regenerated by tools/gotables on every run).  On the evaluation path (everything reachable from
-   Evaluate and Execute) there is exactly one, and it shortens the Parts of the JSON-pointer that getValue built for this
-   very call; the only write to the syntax tree (the Converted slot of a matches node) happens in compileRegexps,
-   which runs inside CreateEvaluator before the evaluator is returned.  This is the code-side counterpart of
-   `evaluate_write_free` (C12b.v): a new field write in these files (a cache, a memo) stops this lemma. *)
-From Coq Require Import List String.
+(* Static tie for C12 / C13: the assignments in bexpr.go, evaluate.go, filter.go, options.go and coerce.go whose target is a
+   field, a dereference or an element, each classified by tools/gotables (regenerated on every run) as a write to the
+   function's OWN COPY of a struct (a chain of field selections on a by-value parameter or on a local initialised from a
+   composite literal or from such a parameter) or as a write to something SHARED (through pointer parameters and receivers,
+   package variables, locals of unknown origin, elements, dereferences).
+   On the evaluation path - the functions reachable from Evaluator.Evaluate and Filter.Execute through mentions by name
+   (go_eval_reachable, computed by the translator), except the option constructors, whose closures write only through the
+   *options argument that getOpts allocates per call - there is no shared write at all; and the package has no variable that could hold state written after initialisation.
+   This is the code-side counterpart of `evaluate_write_free` (C12b.v): a new cache, memo, pool or counter stops these lemmas.
+   The statements do not mention variable names, so renaming or re-shaping the per-call copies does not stop them. *)
+From Coq Require Import List String Bool.
 From Bexpr Require Import GoTables.
 Import ListNotations.
 Open Scope string_scope.
 
-Definition creation_time_functions := ["CreateEvaluator"; "compileRegexps"; "CreateFilter"].
-Definition evaluation_path_writes : list (string * string * string) :=
-  filter (fun w => match w with (_, fn, _) => negb (existsb (String.eqb fn) creation_time_functions) end) go_field_writes.
+Definition option_constructors := ["WithMaxExpressions"; "WithTagName"; "WithHookFn"; "WithUnknownValue"; "WithLocalVariable"].
+Definition w_fn (w : string * string * string * string) : string := match w with (_, fn, _, _) => fn end.
+Definition w_class (w : string * string * string * string) : string := match w with (_, _, _, c) => c end.
+Definition shared_writes := filter (fun w => String.eqb (w_class w) "shared") go_field_writes.
+Definition evaluation_path_shared_writes :=
+  filter (fun w => existsb (String.eqb (w_fn w)) go_eval_reachable && negb (existsb (String.eqb (w_fn w)) option_constructors)) shared_writes.
 
-Lemma field_writes_pinned :
-  go_field_writes = [("bexpr.go", "compileRegexps", "node.Value.Converted"); ("evaluate.go", "evaluateNotPresent", "ptr.Parts")].
+Lemma evaluation_path_writes_nothing_shared : evaluation_path_shared_writes = [].
 Proof. reflexivity. Qed.
 
-Lemma evaluation_path_writes_only_the_per_call_pointer :
-  evaluation_path_writes = [("evaluate.go", "evaluateNotPresent", "ptr.Parts")].
+(* the evaluation path is not empty: the evaluator's own functions are on it (so the statement above is not vacuous) *)
+Lemma evaluation_path_is_populated :
+  forallb (fun f => existsb (String.eqb f) go_eval_reachable) ["Evaluate"; "Execute"; "evaluate"] = true.
+Proof. reflexivity. Qed.
+
+Lemma write_classes_are_known : forallb (fun w => String.eqb (w_class w) "shared" || String.eqb (w_class w) "own-copy") go_field_writes = true.
+Proof. reflexivity. Qed.
+
+Lemma no_mutable_package_state : forallb (fun v => match v with (_, _, c) => String.eqb c "fixed" end) go_package_vars = true.
 Proof. reflexivity. Qed.
